@@ -539,3 +539,249 @@ Example ex_dot_lookup_after_insert :
   first_assoc 2147483651 (dr_log d) = None /\
   resolve_inum al_t al_lookup (dr_t (snd (dot_run (snd (get d 32)) dot_h2))) 2147483651 = Ok 32.
 Proof. vm_compute. repeat split; reflexivity. Qed.
+
+(* ================= the DOT_ENTRIES inode cache on the REAL rbtree =================
+   The section above runs the directory reader over an abstract container and assumes
+   [rbtree_contract].  coq/Util/RbModel.v is a statement-by-statement model of
+   lib/util/src/rbtree.c (rbtree_init, mknode, subtree_insert, subtree_balance, rotations,
+   flip_colors, rbtree_insert, rbtree_lookup; nodes hold BYTES: key, padding, value), with its
+   own theorems in Properties_C19.v (rbtree_insert_preserves_inv, rbtree_lookup_contract, ...;
+   hypothesis: the comparator is a strict weak order) and its own tie to the C code.
+   coq/C10/DotRbModel.v sets that tree up the way dir_reader.c does --
+   rbtree_init(&rd->dcache, sizeof(sqfs_u32), sizeof(sqfs_u64), dcache_key_compare), keys = the
+   bytes at &inum, values = the bytes at &ref, comparator = load two sqfs_u32 then compare --
+   and coq/C10/DotRbProofs.v proves that it is an instance of the contract.  So the three dcache
+   theorems hold for the reader on the real tree with NO hypothesis about the container.
+   The sizes (4 / 8 padded / 8) and one real node are read from a reader object the library
+   created (coq/C10/GenC10Rb.v, regenerated by the check). *)
+From SqfsV Require Util.RbModel.
+From SqfsV Require Import C10.GenC10Rb C10.DotRbModel C10.DotRbProofs.
+
+(* ---- the comparator: two models of dcache_key_compare, reconciled ---- *)
+
+(* DotModel.key_compare models the C EXPRESSION  lhs < rhs ? -1 : (lhs > rhs ? 1 : 0)  on the two
+   loaded numbers: its sign is their order (no range restriction) *)
+Theorem dcache_key_compare_sign : forall a b,
+  ((key_compare a b < 0)%Z <-> a < b) /\ (key_compare a b = 0%Z <-> a = b) /\ ((key_compare a b > 0)%Z <-> b < a).
+Proof. exact key_compare_sign. Qed.
+Print Assumptions dcache_key_compare_sign.
+
+(* Util.RbModel.cmp_u32 models the whole C FUNCTION on the key bytes: the loads
+   lhs = *((const sqfs_u32 * )l), rhs = *((const sqfs_u32 * )r)  (c10rb_key_size bytes each, little
+   endian), then that expression *)
+Theorem dcache_cmp_u32_is_key_compare : forall a b,
+  RbModel.cmp_u32 a b = key_compare (RbModel.rd_le (firstn kbytes a)) (RbModel.rd_le (firstn kbytes b)).
+Proof. exact cmp_u32_is_key_compare. Qed.
+
+(* both order statements follow from the sign lemma: this development's
+   [dcache_key_compare_total] (above) ... *)
+Theorem dcache_key_compare_total_from_sign : strict_total key_compare.
+Proof. exact key_compare_total_from_sign. Qed.
+
+(* ... and Properties_C19.dcache_key_compare_is_order (same statement, proved there directly) *)
+Theorem dcache_cmp_u32_order_from_sign :
+  (forall a b, (RbModel.cmp_u32 a b < 0 <-> 0 < RbModel.cmp_u32 b a)%Z) /\
+  (forall a b c, (RbModel.cmp_u32 a b <= 0 -> RbModel.cmp_u32 b c <= 0 -> RbModel.cmp_u32 a c <= 0)%Z).
+Proof. exact cmp_u32_order_from_sign. Qed.
+Print Assumptions dcache_cmp_u32_order_from_sign.
+
+(* the abstract container takes a comparator on loaded keys; at the byte level it becomes
+   [lift cmp a b = cmp (dec_key a) (dec_key b)], dec_key = load a sqfs_u32.  For key_compare
+   that is cmp_u32 on all keys that are the bytes of numbers < 2^32 *)
+Theorem dcache_lift_key_compare_is_cmp_u32 : forall a b,
+  inr a -> inr b -> lift key_compare a b = RbModel.cmp_u32 a b.
+Proof. exact lift_key_compare_cmp_u32. Qed.
+
+(* ---- byte-level facts, against numbers read from the library ---- *)
+
+(* the rbtree_t that sqfs_dir_reader_create's call of rbtree_init left behind has the sizes the
+   Util model of rbtree_init computes from the widths of the key and value types (key_size_padded:
+   key_size rounded up to the pointer size), rbtree_init succeeds, and cmp_u32 reads key_size bytes *)
+Theorem dcache_rbtree_sizes :
+  c10rb_key_size = c10d_inum_bytes /\ c10rb_value_size = c10d_ref_bytes /\
+  RbModel.rbtree_init c10rb_key_size c10rb_value_size
+    = (0%Z, RbModel.mk_rbtree RbModel.Leaf c10rb_key_size c10rb_key_size_padded c10rb_value_size) /\
+  c10rb_root_after_init_is_null = 1 /\
+  256 ^ c10rb_key_size = u32m /\
+  (forall a b, RbModel.cmp_u32 a b
+               = key_compare (RbModel.rd_le (firstn kbytes a)) (RbModel.rd_le (firstn kbytes b))).
+Proof. exact rb_sizes_consistent. Qed.
+
+(* the node that dcache_add built in the library for (c10rb_sample_inum >= 2^31, c10rb_sample_ref)
+   is, byte for byte (key byte order, zero padding, value at value_offset), the node the model
+   builds; both comparators build it; the model resolves the number to what
+   sqfs_dir_reader_resolve_inum returned *)
+Theorem dcache_sample_node_matches :
+  rt_insert key_compare rt_empty c10rb_sample_inum c10rb_sample_ref
+    = Some (RbModel.mk_rbtree
+              (RbModel.Node 0 RbModel.Leaf (negb (c10rb_sample_is_red =? 0)) c10rb_sample_value_offset
+                            c10rb_sample_data RbModel.Leaf)
+              c10rb_key_size c10rb_key_size_padded c10rb_value_size, 1) /\
+  rtb_insert RbModel.cmp_u32 rt_empty c10rb_sample_inum c10rb_sample_ref
+    = rt_insert key_compare rt_empty c10rb_sample_inum c10rb_sample_ref /\
+  rt_lookup key_compare (rt_insert key_compare rt_empty c10rb_sample_inum c10rb_sample_ref) c10rb_sample_inum
+    = Some c10rb_sample_resolved /\
+  RbModel.lenN c10rb_sample_data = c10rb_key_size_padded + c10rb_value_size /\
+  2147483648 <= c10rb_sample_inum < u32m.
+Proof. exact sample_node_matches. Qed.
+
+(* key and value bytes: a key < 2^32 is stored as bytes and loaded back; a reference is loaded
+   back whatever its size (DotModel keeps references unbounded), and for a value of the type
+   sqfs_u64 the stored bytes are its 8 byte little-endian representation *)
+Theorem dcache_key_value_bytes :
+  (forall k, bytes_ok (enc_key k) /\ RbModel.lenN (enc_key k) = c10rb_key_size) /\
+  (forall k, k < u32m -> dec_key (enc_key k) = k) /\
+  (forall v, dec_val (enc_val v) = v /\ RbModel.lenN (enc_val v) = c10rb_value_size) /\
+  (forall v, v < 256 ^ c10rb_value_size -> enc_val v = le vbytes v /\ bytes_ok (enc_val v)).
+Proof.
+  exact (conj (fun k => conj (enc_key_bytes k) (enc_key_len k))
+        (conj dec_enc_key
+        (conj (fun v => conj (dec_enc_val v) (enc_val_len v)) enc_val_bytes))).
+Qed.
+Print Assumptions dcache_key_value_bytes.
+
+(* ---- the contract, discharged ---- *)
+
+(* the model of lib/util/src/rbtree.c, initialised and used as dir_reader.c does, is a finite
+   map on sqfs_u32 keys for EVERY comparator that is a strict total order on them: the invariant
+   is Util's rbtree_inv (search order, red-black shape, node layout) + pairwise different keys +
+   the sizes of rbtree_init + "no NULL dereference happened" *)
+Theorem rbtree_c_meets_dcache_contract : rbtree_contract rt_empty rt_lookup rt_insert.
+Proof. exact real_contract. Qed.
+Print Assumptions rbtree_c_meets_dcache_contract.
+
+(* the same with the comparator the C code passes, in Util's model of it *)
+Theorem rbtree_c_dcache_laws_cmp_u32 :
+  map_laws rt_empty (rtb_lookup RbModel.cmp_u32) (rtb_insert RbModel.cmp_u32).
+Proof. exact real_map_laws_cmp_u32. Qed.
+Print Assumptions rbtree_c_dcache_laws_cmp_u32.
+
+(* ---- the three dcache theorems on the real tree: no container hypothesis left ---- *)
+
+Theorem dcache_order_free_real :
+  forall uncompress file fsize (sb : super) (h1 h2 qs : list dop),
+  let run := drun uncompress file fsize rt rt_lookup rt_insert sb in
+  let d1 := snd (run (dot_create rt rt_empty sb) h1) in
+  let d2 := snd (run (dot_create rt rt_empty sb) h2) in
+  same_set (dr_log d1) (dr_log d2) -> functional (dr_log d1) ->
+  fst (run d1 qs) = fst (run d2 qs).
+Proof. exact order_free_real. Qed.
+Print Assumptions dcache_order_free_real.
+
+Theorem dcache_lookup_after_insert_real :
+  forall uncompress file fsize (sb : super) (h : list dop) (ref : N) (i : inode) (ops : list dop),
+  let run := drun uncompress file fsize rt rt_lookup rt_insert sb in
+  let get := dot_get_inode uncompress file fsize rt rt_lookup rt_insert sb in
+  let d := snd (run (dot_create rt rt_empty sb) h) in
+  fst (get d ref) = Done (Ok i) -> is_dir_inode i = true ->
+  let d1 := snd (get d ref) in
+  exists r, resolve_inum rt rt_lookup (dr_t (snd (run d1 ops))) (inum_of i) = Ok r /\
+            In (inum_of i, r) (dr_log d1) /\
+            (first_assoc (inum_of i) (dr_log d) = None -> r = ref).
+Proof. exact lookup_after_insert_real. Qed.
+Print Assumptions dcache_lookup_after_insert_real.
+
+Theorem dcache_monotone_real :
+  forall uncompress file fsize (sb : super) (h ops : list dop) (k r : N),
+  let run := drun uncompress file fsize rt rt_lookup rt_insert sb in
+  let d := snd (run (dot_create rt rt_empty sb) h) in
+  resolve_inum rt rt_lookup (dr_t d) k = Ok r ->
+  resolve_inum rt rt_lookup (dr_t (snd (run d ops))) k = Ok r.
+Proof. exact monotone_real. Qed.
+Print Assumptions dcache_monotone_real.
+
+(* after EVERY history of the reader: the cache is a tree -- rbtree_insert never dereferenced
+   NULL -- that satisfies rtb_inv for Util's cmp_u32 (rbtree_inv, strictly sorted keys, sizes of
+   rbtree_init, one node per allocation); driven by cmp_u32 it answers every sqfs_u32 key with
+   the first reference the number was fetched under; and every insert the reader performs is
+   the insert of the tree driven by cmp_u32 (the comparator argument of the abstract model and
+   Util's model of the C function take the tree through the same steps) *)
+Theorem dcache_real_tree_invariant :
+  forall uncompress file fsize (sb : super) (h : list dop),
+  let d := snd (drun uncompress file fsize rt rt_lookup rt_insert sb (dot_create rt rt_empty sb) h) in
+  rt_good (dr_t d) /\
+  (forall k, k < u32m -> rtb_lookup RbModel.cmp_u32 (dr_t d) k = first_assoc k (dr_log d)) /\
+  (forall k v, k < u32m -> dc_insert rt rt_insert (dr_t d) k v = rtb_insert RbModel.cmp_u32 (dr_t d) k v).
+Proof. exact real_tree_good. Qed.
+Print Assumptions dcache_real_tree_invariant.
+
+Theorem dcache_real_ops_are_cmp_u32 : forall t k,
+  rt_good t -> k < u32m ->
+  rt_lookup key_compare t k = rtb_lookup RbModel.cmp_u32 t k /\
+  forall v, rt_insert key_compare t k v = rtb_insert RbModel.cmp_u32 t k v.
+Proof. exact rt_ops_cmp_u32. Qed.
+
+(* ---- non-vacuity ---- *)
+
+(* the insertion sequence of ex_rb_sub_compare (1, 2, 2^31+3, 4, 5) on the REAL tree: with
+   dcache_key_compare (lifted from the abstract model, and as cmp_u32: one and the same tree)
+   every key is found with its value ... *)
+Example ex_real_key_compare :
+  map (rt_lookup key_compare (rt_of (lift key_compare) adversarial_keys)) adversarial_keys
+    = map (fun k => Some (k + 1000)) adversarial_keys /\
+  rt_of RbModel.cmp_u32 adversarial_keys = rt_of (lift key_compare) adversarial_keys /\
+  rt_keys (rt_of RbModel.cmp_u32 adversarial_keys) = [1; 2; 4; 5; 2147483651].
+Proof. exact real_key_compare_finds_all. Qed.
+
+(* ... with (int)(lhs - rhs) (DotModel.sub_compare lifted, and Util's cmp_sub32: again one tree)
+   2^31+3 is in the tree and is not found.  Same phenomenon, other key sequence than
+   Properties_C19.rbtree_lookup_loses_key_without_order_refuted (5, 2^31+5, 2^30, 7, 2^31 with a
+   lookup before every insert); dcache_sub_compare_refuted above says which hypothesis fails *)
+Example ex_real_sub_compare :
+  rt_of RbModel.cmp_sub32 adversarial_keys = rt_of (lift sub_compare) adversarial_keys /\
+  rt_keys (rt_of (lift sub_compare) adversarial_keys) = [2147483651; 1; 2; 4; 5] /\
+  map (rt_lookup sub_compare (rt_of (lift sub_compare) adversarial_keys)) adversarial_keys
+    = [Some 1001; Some 1002; None; Some 1004; Some 1005] /\
+  rtb_lookup RbModel.cmp_sub32 (rt_of RbModel.cmp_sub32 adversarial_keys) 2147483651 = None.
+Proof. exact real_sub_compare_loses_key. Qed.
+
+(* the reader on the real tree over the image of the section above: the hypotheses of
+   dcache_order_free_real hold for the two histories, the common answers are the non-trivial
+   ones of ex_dot_answers, and the cache after the second history is a three-node tree *)
+Definition dot_run_real := drun no_codec (read_at dot_img) (len dot_img) rt rt_lookup rt_insert dot_sb.
+Definition dot_new_real := dot_create rt rt_empty dot_sb.
+
+Example ex_dot_real_hyps :
+  same_set (dr_log (snd (dot_run_real dot_new_real dot_h1))) (dr_log (snd (dot_run_real dot_new_real dot_h2))) /\
+  functional (dr_log (snd (dot_run_real dot_new_real dot_h1))).
+Proof.
+  assert (E1 : dr_log (snd (dot_run_real dot_new_real dot_h1)) = [(5, 128); (2147483651, 32); (4, 0)]) by (vm_compute; reflexivity).
+  assert (E2 : dr_log (snd (dot_run_real dot_new_real dot_h2)) = [(4, 0); (2147483651, 32); (4, 0); (5, 128); (2147483651, 32)])
+    by (vm_compute; reflexivity).
+  rewrite E1, E2. split.
+  - intro p. simpl. tauto.
+  - intros k v v' H1 H2. simpl in H1, H2.
+    destruct H1 as [H1|[H1|[H1|[]]]]; destruct H2 as [H2|[H2|[H2|[]]]]; congruence.
+Qed.
+
+Example ex_dot_real_answers :
+  fst (dot_run_real (snd (dot_run_real dot_new_real dot_h2)) dot_queries) =
+  [AInum (Ok 32); APath (Done (Ok 32)); APath (Done (Ok 64));
+   AOpen (Ok (mkDs (mkRd 0 258 0 3 0 0) 32 0 0 c10d_STATE_OPENED));
+   AInum (Err c_SQFS_ERROR_NO_ENTRY)] /\
+  fst (dot_run_real (snd (dot_run_real dot_new_real dot_h1)) dot_queries)
+  = fst (dot_run_real (snd (dot_run_real dot_new_real dot_h2)) dot_queries).
+Proof. vm_compute. split; reflexivity. Qed.
+
+(* rt_good (hypothesis of dcache_real_ops_are_cmp_u32) holds of a non-empty tree: the cache
+   after the second history, whose nodes carry the keys 4, 5, 2^31+3 as bytes *)
+Example ex_dot_real_tree :
+  let t := dr_t (snd (dot_run_real dot_new_real dot_h2)) in
+  rt_good t /\ rt_keys t = [4; 5; 2147483651] /\
+  match t with
+  | Some (tr, next) => next = 3 /\ RbModel.node_key 4 (RbModel.rb_root tr) = [5; 0; 0; 0]
+  | None => False
+  end.
+Proof.
+  split; [apply (dcache_real_tree_invariant no_codec (read_at dot_img) (len dot_img) dot_sb dot_h2)|].
+  vm_compute. repeat split.
+Qed.
+
+(* dcache_lookup_after_insert_real on the image, as ex_dot_lookup_after_insert *)
+Example ex_dot_real_lookup_after_insert :
+  let d := snd (dot_run_real dot_new_real [OGetInode 0; OGetInode 7]) in
+  let get := dot_get_inode no_codec (read_at dot_img) (len dot_img) rt rt_lookup rt_insert dot_sb in
+  fst (get d 32) = Done (Ok (mkInode [1; 16877; 0; 0; 0; 2147483651] [0; 3; 24; 0; 5] [])) /\
+  first_assoc 2147483651 (dr_log d) = None /\
+  resolve_inum rt rt_lookup (dr_t (snd (dot_run_real (snd (get d 32)) dot_h2))) 2147483651 = Ok 32.
+Proof. vm_compute. repeat split; reflexivity. Qed.
